@@ -24,6 +24,8 @@ DECIDED += ("; R6 a listing applies its existence tests to the candidate entry, 
 DECIDED += "; R3 sibling replays of the pending log consider the same record kinds (file_len ~ read_file, dir_entries ~ dir_has_children)"
 DECIDED += '; a cancelled ring operation is taken out of whichever pool holds it (shared C18-R1)'
 DECIDED += '; R7 the tokio OpenOptions forwards each option to the std setter of the same name; a refused seek leaves the cursor where it was'
+DECIDED += ('; R8 frames of reference: every bound with which a read indexes the caller\'s buffer is a buffer position - file positions '
+            '(offset, file_len, persisted length, a pending record\'s len / offset) are translated by subtracting the read offset before they meet a length')
 ASSUMPTIONS = ["Rust's &T / &mut T discipline: a function taking &Fs cannot mutate the tree (Fs has no interior mutability: checked)"]
 
 OBSERVERS = ["file_exists", "dir_exists", "symlink_exists", "file_len", "read_file", "dir_entries", "read_link", "file_mode", "dir_mode",
@@ -424,6 +426,113 @@ def r7(ctx):
         ctx.bad(R, "anchor-missing:seek", "", "Seek for File not found")
 
 
+
+def _frame(sh):
+    """frame of reference of a shape: 'A' a position in the file, 'R' a length / a position in the caller's buffer, 'K' a constant,
+    'X' two frames mixed without the translating subtraction, 'U' undecided"""
+    if isinstance(sh, str):
+        if sh.startswith("call:") and sh.endswith("::file_len"):
+            return "A"
+        return {"abs": "A", "rel": "R"}.get(sh, "K" if sh.startswith("const:") else "U")
+    ks = [_frame(k) for k in sh[1:]]
+    if "X" in ks:
+        return "X"
+    nk = [k for k in ks if k != "K"]
+    if "U" in nk:
+        return "U"
+    if not nk:
+        return "K"
+    if len(nk) == 1:
+        return nk[0]
+    op = sh[0]
+    if len(nk) != 2:
+        return "U"
+    a, b2 = nk
+    if op == "Add" or op in ("saturating_add", "wrapping_add", "checked_add"):
+        return "R" if (a, b2) == ("R", "R") else "A" if "R" in (a, b2) else "U"
+    if op in ("Sub", "saturating_sub", "wrapping_sub", "checked_sub", "abs_diff"):
+        return {"AA": "R", "AR": "A", "RR": "R", "RA": "X"}[a + b2]
+    if op in ("min", "max", "clamp"):
+        return a if a == b2 else "X"
+    return "U"
+
+
+def r8(ctx):
+    R = "C10-R8"
+    ctx.rule(R, "a read translates file positions into buffer positions before it uses them: in every Fs function that takes a byte slice and a file "
+                "`offset`, each bound of a range indexing that slice is typed in a two-frame discipline - file positions (the `offset` parameter, "
+                "Fs::file_len, the length of the persisted content, the `len` / `offset` fields of a pending record) against lengths and buffer "
+                "positions (the slice's len, a record's data len); position - position is a length, position + length a position, min / max "
+                "need both operands in one frame - and must come out as a buffer position. A pending SetLen / Write / the persisted image "
+                "overlaid with a bound in the wrong frame is right for reads at offset 0 and returns discarded or misplaced bytes elsewhere")
+    from engine.analysis import flow as _fl
+    n = 0
+    for b in sorted(ctx.w.bodies.values(), key=lambda b: b.id):
+        if b.crate != "turmoil_fs" or b.kind not in ("Fn", "AssocFn"):
+            continue
+        names = [l.get("n") for l in b.locals[:b.argc + 1]]
+        if "offset" not in names:
+            continue
+        offa = f"arg:{names.index('offset')}:offset@{b.id}"
+        sl = Slicer(ctx.w)
+
+        def leaf(body, op, depth, offa=offa, sl=sl):
+            p = op_place(op)
+            if p is not None and not p.get("p"):
+                d = single_def(body, p["l"])
+                if d and d[1] == "term" and d[2]["k"] == "call":
+                    m = re.search(r"ops::(Sub|Add)>?::(sub|add)$", d[2].get("f", ""))
+                    if m:
+                        return _fl._node(m.group(1), [expr_shape(body, a, depth + 1) for a in d[2]["args"]])
+            at = sl.atoms(body, op)
+            if any(a.startswith("binop:") or _fl._ARITH.search(a) or re.search(r"ops::(Sub|Add)>?::", a) for a in at):
+                return "in"
+            if any(re.search(r"::len$", a) for a in at if a.startswith("call:")):
+                if "field:turmoil_fs::FileData::content" in at:
+                    return "abs"
+                if "field:turmoil_fs::PendingOp::data" in at or any(a.startswith("arg:") and a != offa and not a.startswith("arg:1:self") for a in at):
+                    return "rel"
+                return "in"
+            if "field:turmoil_fs::PendingOp::len" in at or "field:turmoil_fs::PendingOp::offset" in at:
+                return "abs"
+            if "call:turmoil_fs::Fs::file_len" in at:
+                return "abs"
+            if offa in at and not any(a.startswith("field:") for a in at):
+                return "abs"
+            return "in"
+
+        for bb, t in b.calls(re.compile(r"ops::IndexMut>::index_mut$|ops::Index>::index$")):
+            rl, rf = receiver_root(b, t["args"][0])
+            if rl is None or not (2 <= rl <= b.argc) or names[rl] == "offset" or any(f.startswith("turmoil_fs::") for f in rf):
+                continue        # ranges over the caller's buffer only (the receiver chain: `window[a..][..n]`, split_at_mut(..).0)
+            bufs = [f"arg:{rl}:{names[rl]}@{b.id}"]
+            o = origin(b, t["args"][1])
+            r = o.get("r") or {}
+            if o["k"] != "agg" or "Range" not in (r.get("adt") or ""):
+                continue
+            for i, x in enumerate(r.get("ops", [])):
+                _fl._SHAPE_LEAF = leaf
+                try:
+                    sh = expr_shape(b, x)
+                finally:
+                    _fl._SHAPE_LEAF = None
+                fr = _frame(sh)
+                if fr in ("U", "K"):
+                    ctx.info(R, f"bound:{b.id}#{nth(ctx.__dict__.setdefault('_c10r8', {}), b.id)}", t["s"], f"bound {i} of a range over `{bufs[0].split(':')[2].split('@')[0]}` not typed (shape {shape_str(sh)})")
+                    continue
+                n += 1
+                ok = fr == "R"
+                ctx.inst(R, f"buffer-bound:{b.id}#{nth(ctx.__dict__.setdefault('_c10r8', {}), b.id)}", ok, t["s"],
+                         f"bound {i} is a buffer position: {shape_str(sh)}" if ok else
+                         f"`{b.id}` indexes the caller's buffer with {shape_str(sh)}, which " +
+                         ("is a position in the file" if fr == "A" else "combines a position in the file with a buffer position / length without subtracting the read offset") +
+                         ": the overlay is right only for a read at offset 0 - a positioned read (read_at, a read after seek, an io_uring read) after a pending "
+                         "truncate-then-extend returns the discarded bytes where POSIX returns zeros, and a sync changes what the same read returns")
+    # 6 on the reference tree; an equivalent spelling with sub-slices (`window[d..][..len]`, `[0..src.len()]`) keeps 3 - the SetLen
+    # and Write overlays cannot be written without at least one bound each
+    ctx.inst(R, "buffer-bound:found", n >= 2, "", f"{n} buffer bounds typed" if n >= 2 else f"only {n} typed bounds of the read buffer found (Fs::read_file had 6): re-derive")
+    ctx.floor(R, 3)
+
 def run(ctx):
     if ctx.config not in ("all", "fs", "fs_iou"):
         ctx.info("C10-R1", "feature-off", "", "unstable-fs not enabled in this configuration: nothing to analyse")
@@ -435,6 +544,7 @@ def run(ctx):
     r5(ctx)
     r6(ctx)
     r7(ctx)
+    r8(ctx)
     C07.r3(ctx)   # R3: syncs move records, never drop or duplicate them
     C07.r1(ctx)   # R3: only sync / crash touch the persisted image
     C04.r6(ctx)   # R4: per-host isolation
